@@ -85,6 +85,8 @@ type Run struct {
 	fnSeen    map[string]bool
 	fconv     map[[2]int]*Term
 	ufMemo    map[string]*Term
+	noValidate bool
+	symNodes   []*Object
 
 	frame *Frame
 	depth int
@@ -267,7 +269,7 @@ func (r *Run) concretize(t *Term, what string) uint64 {
 		return v
 	}
 	// enumerate feasible values
-	const maxVals = 80
+	const maxVals = 140
 	r.flush()
 	var vals []uint64
 	r.sol.Push()
